@@ -157,6 +157,18 @@ def _traverse_tree(nodes_iter, show, **kwargs):
         prev_level = node.level
 
 
+def _get_node_text(node: NodeInfo, label: str) -> str:
+    # Each node is shown on a line of its own. Characters in a key or a type
+    # name that would break that line or that cannot be written to the output
+    # at all (line breaks and other control characters, lone surrogates) are
+    # shown escaped.
+    text = f"{node.key}: {label}"
+    return "".join(
+        char if char.isprintable() else char.encode("unicode_escape").decode("ascii")
+        for char in text
+    )
+
+
 def pretty_print_tree(
     nodes_iter: Iterator[NodeInfo],
     show: Literal["all", "untrusted", "trusted"],
@@ -172,13 +184,13 @@ def pretty_print_tree(
             nodes_iter, show, **kwargs
         ):
             if is_first_node:
-                tree = Tree(f"{node.key}: {label}", guide_style="gray50")
+                tree = Tree(_get_node_text(node, label), guide_style="gray50")
                 trees = {0: tree}
                 continue
 
             parent_level = node.level - 1
             parent_tree = trees[parent_level]
-            current_tree = parent_tree.add(f"{node.key}: {label}")
+            current_tree = parent_tree.add(_get_node_text(node, label))
             trees[node.level] = current_tree
 
         console.print(tree)
@@ -189,7 +201,7 @@ def pretty_print_tree(
             nodes_iter, show, **kwargs
         ):
             if is_first_node:
-                print(f"{node.key}: {label}")
+                print(_get_node_text(node, label))
                 continue
 
             # Level diff of -1 means that this node is a child of the previous node.
@@ -212,7 +224,7 @@ def pretty_print_tree(
                 print("├──", end="")
                 prefix += "│   "
 
-            print(f" {node.key}: {label}")
+            print(f" {_get_node_text(node, label)}")
 
 
 def walk_tree(
